@@ -148,9 +148,13 @@ def run(chk, repo):
             if st.kind != "def":
                 continue
             W = WF("%s[%s]" % (dname, st.names[0]))
+            known = st.names[0] in ("pole", "z", "pole_exp", "z_exp")
             try:
                 paths = design_paths(st.node)
             except (Inconclusive, PathLimit) as ex:
+                if not known:
+                    chk.note("C13.gain", W, "strategy not on record and outside the interpretable fragment (%s): not judged" % ex)
+                    continue
                 raise AnalysisError("%s not interpretable: %s" % (W, ex))
             chk.require(paths, "%s: no return path" % W)
             for val, env, rst, trail in paths:
@@ -159,6 +163,8 @@ def run(chk, repo):
                 tl = " and ".join(("" if p else "not ") + short(t, 30) for t, p in trail) or "always"
                 chk.decide(g == 1, "C13.gain", W, "[%s] gain at z = %d of %s" % (tl, at, short(rst)),
                            why="gain is %s, not 1" % g.key(), node=rst)
+                if not known:
+                    continue            # only the unit gain at DC / Nyquist is documented for every strategy
                 try:
                     n0, n1, d0, d1 = first_order(val)
                 except Inconclusive as ex:
